@@ -423,7 +423,7 @@ def _hand_cable(prefix, nseg, section, initial, off):
     return xml
 
 
-def cable_xml(nseg, section, curve, initial, pose, flat=False, two=False):
+def cable_xml(nseg, section, curve, initial, pose, flat=False, two=False, sleep=False):
     pos, quat = POSES[pose]
     geom = SECTIONS[section][0]
     conf = '<config key="twist" value="%r"/><config key="bend" value="%r"/>%s' % (
@@ -450,11 +450,11 @@ def cable_xml(nseg, section, curve, initial, pose, flat=False, two=False):
         if two:
             body += '<body name="base2" pos="0 1 0">%s</body>' % comp("B", "0 0 0")
     return """<mujoco>
-  <option gravity="0 0 -9.81"/>
+  <option gravity="0 0 -9.81">%s</option>
   <size memory="256K"/>
   <extension>%s</extension>
   <worldbody>%s</worldbody>
-</mujoco>""" % (ext, body)
+</mujoco>""" % ('<flag sleep="enable"/>' if sleep else "", ext, body)
 
 
 def _quat_axis(axis, ang):
@@ -481,22 +481,26 @@ BOX_TWIST_RTOL = 6e-3  # the textbook closed form for the rectangle torsion cons
 
 
 def _cable_job(job):
-    nseg, section, curve, initial, flat, two = job
+    nseg, section, curve, initial, flat, two = job[:6]
+    sleep = bool(job[6]) if len(job) > 6 else False      # the sleep flag enabled (no tree asleep): the laws are unchanged
     part = core.Part()
     lib = mj.load("rel")
     kind, dims = SECTIONS[section][1], SECTIONS[section][2]
     K = section_stiffness(kind, dims)
-    base_tag = "cable%s nseg=%d section=%s curve=%s initial=%s flat=%s" % (" x2" if two else "", nseg, section, curve, initial, flat)
+    base_tag = "cable%s nseg=%d section=%s curve=%s initial=%s flat=%s%s" % (" x2" if two else "", nseg, section, curve, initial, flat,
+                                                                            " sleepflag" if sleep else "")
+    if sleep:
+        part.add("cable_models_with_sleep_flag")
     ref_forces = {}
     for pose in POSES:
-        xml = cable_xml(nseg, section, curve, initial, pose, flat, two)
+        xml = cable_xml(nseg, section, curve, initial, pose, flat, two, sleep)
         try:
             m = lib.load_xml(xml)
+            d = lib.make_data(m)
         except mj.MjError as e:
             part.count(1)
             part.violation("cable: valid model rejected", "%s pose=%s: %s" % (base_tag, pose, str(e)[:300]), dict(xml=xml))
             return part
-        d = lib.make_data(m)
         # cable bodies and their ball joints
         cb = [b for b in range(m.nbody) if m.body_plugin[b] >= 0]
         balls = []
@@ -962,6 +966,9 @@ def run(ctx):
         for initial in ("none", "ball", "free"):
             cjobs.append((nseg, "capsule r=5mm", "hand" if nseg == 2 else "straight", initial, False, True))
             cjobs.append((nseg, "box 4x10mm", "hand" if nseg == 2 else "arc", initial, False, True))
+    # the same laws with the sleep flag enabled (no tree is asleep): quick covers the 3-segment capsule cables and the two-instance
+    # models, thorough every job (the plugin is constructed by mj_makeData before the data is reset)
+    cjobs += [j + (True,) for j in cjobs if ctx.thorough or j[5] or (j[0] == 3 and j[1].startswith("capsule"))]
     ctx.extra["cable_models"] = len(cjobs) * len(POSES)
     _serial(ctx, _cable_chunk, cjobs)
 
